@@ -16,9 +16,9 @@ import (
 // StakingSnapshot is the complete staking ledger at a block boundary, as big integers.
 type StakingSnapshot struct {
 	TotalSupply, CommonPool, LastBlockFees, GovDeposits *big.Int
-	Accounts                                          map[staking.Address]*staking.Account
-	Delegations                                       map[staking.Address]map[staking.Address]*staking.Delegation
-	Debonding                                         map[staking.Address]map[staking.Address][]*staking.DebondingDelegation
+	Accounts                                            map[staking.Address]*staking.Account
+	Delegations                                         map[staking.Address]map[staking.Address]*staking.Delegation
+	Debonding                                           map[staking.Address]map[staking.Address][]*staking.DebondingDelegation
 }
 
 // Snapshot reads the whole staking state through the exported state wrappers.
